@@ -1,1 +1,844 @@
-fn main() { println!("MACHINERY-ERROR check not built yet"); std::process::exit(2); }
+//! C10 — a fitted Gaussian mixture is a valid mixture and yields valid probabilities.
+//!
+//! Exhaustive sweep (DESIGN.md §4 C10): every member of a finite CATALOGUE of deterministic blob
+//! datasets (separated / overlapping / anisotropic / far-apart blobs; 1..3 (quick) or 1..6
+//! (thorough) features; 20..60 rows; coordinates from an LCG with fixed constants — this is data
+//! construction, not sampling of the case space: every catalogue member is run) x the full
+//! configuration grid (components 1..3 x {KMeans, Random} initialisation x seeds x reg_covar x
+//! tolerance x n_runs x iteration budget) x the query menu (every training row, every component
+//! mean, and the points at 10, 38, 39, 100, 1e3, 1e6 Mahalanobis standard deviations from every
+//! component along +-every coordinate axis and every diagonal; 38 / 39 bracket the f64 exp
+//! underflow).
+//!
+//! Oracles are recomputed from the definition in plain f64 (lvmc_core::refmath; no linfa code):
+//! weights, bounding box, symmetry, own Cholesky, precision x covariance = I (tolerance scaled by
+//! the Jacobi condition number), the moment identity of an M-step
+//!     sum_k w_k (S_k + (mu_k - m)(mu_k - m)^T) - reg I = population covariance of the data,
+//! validity of every `predict_proba` row, `predict` in the arg-max set of its row, and both against
+//! the posterior computed from the PUBLISHED weights / means / covariances with a max-shifted
+//! log-sum-exp.
+
+use linfa::prelude::*;
+use linfa::DatasetBase;
+use linfa_clustering::{GaussianMixtureModel, GmmError, GmmInitMethod};
+use lvmc_core::refmath::{self, Mat};
+use lvmc_core::{guarded, json, par_sweep, Ctx, Level, Value, Violation};
+use ndarray::Array2;
+use rand::SeedableRng;
+use rand_xoshiro::Xoshiro256Plus;
+use serde::{Deserialize, Serialize};
+use std::collections::{BTreeMap, BTreeSet};
+use std::sync::Mutex;
+
+// ------------------------------------------------------------------------------------------
+// constants: every bound / tolerance is repeated in ctx.assume in main()
+// ------------------------------------------------------------------------------------------
+
+const SCALES: [f64; 6] = [10.0, 38.0, 39.0, 100.0, 1e3, 1e6];
+/// ln(f64::MIN_POSITIVE): below it exp() is subnormal (loses bits), below -745.13 it is 0.
+const LN_MIN_NORMAL: f64 = -708.3964185322641;
+const TOL_SUM: f64 = 1e-9;
+const TOL_SYM_REL: f64 = 1e-10;
+const TOL_MOMENT_REL: f64 = 1e-9;
+const TOL_BOX_REL: f64 = 1e-9;
+/// safety factor on cond * (maha + d) bounding the discrepancy between two Cholesky-based
+/// evaluations of the same Gaussian log density (eps = 1.1e-16, so ~900 eps).
+const ERR_COND: f64 = 1e-13;
+/// posterior comparison is skipped (indeterminate) when the error bound exceeds this
+const ERR_SKIP: f64 = 1e-4;
+
+// signatures of the one defect known from the design probe (no max-shift in the log-sum-exp of
+// `estimate_log_prob_resp`); each is assigned only in the regime where the closed form applies
+const SIG_INF: &str = "gmm.predict_proba.row_all_inf_when_every_component_density_underflows";
+const SIG_SUBNORMAL: &str = "gmm.predict_proba.row_sum_off_when_component_densities_are_subnormal";
+const SIG_PRED_FIRST: &str = "gmm.predict.first_component_when_proba_row_is_all_inf";
+
+// ------------------------------------------------------------------------------------------
+// case
+// ------------------------------------------------------------------------------------------
+
+/// One case group = dataset x component count x initialiser; the remaining grid dimensions are
+/// lists that `run_case` walks completely. A violation carries the same structure with singleton
+/// lists, so it replays exactly the failing fit.
+#[derive(Clone, Debug, Serialize, Deserialize)]
+struct Case {
+    dataset: String,
+    family: String,
+    data: Vec<Vec<f64>>,
+    n_clusters: usize,
+    init: String, // "kmeans" | "random"
+    seeds: Vec<u64>,
+    reg_covars: Vec<f64>,
+    tolerances: Vec<f64>,
+    n_runs: Vec<u64>,
+    max_iters: Vec<u64>,
+}
+
+#[derive(Clone, Debug)]
+struct Cfg {
+    seed: u64,
+    reg: f64,
+    tol: f64,
+    n_runs: u64,
+    max_iter: u64,
+}
+
+impl Case {
+    fn configs(&self) -> Vec<Cfg> {
+        let mut out = Vec::new();
+        for &seed in &self.seeds {
+            for &reg in &self.reg_covars {
+                for &tol in &self.tolerances {
+                    for &n_runs in &self.n_runs {
+                        for &max_iter in &self.max_iters {
+                            out.push(Cfg { seed, reg, tol, n_runs, max_iter });
+                        }
+                    }
+                }
+            }
+        }
+        out
+    }
+}
+
+fn single_case_json(case: &Case, cfg: &Cfg, at: Value) -> Value {
+    let c = Case {
+        dataset: case.dataset.clone(),
+        family: case.family.clone(),
+        data: case.data.clone(),
+        n_clusters: case.n_clusters,
+        init: case.init.clone(),
+        seeds: vec![cfg.seed],
+        reg_covars: vec![cfg.reg],
+        tolerances: vec![cfg.tol],
+        n_runs: vec![cfg.n_runs],
+        max_iters: vec![cfg.max_iter],
+    };
+    let mut v = serde_json::to_value(&c).unwrap();
+    v.as_object_mut().unwrap().insert("at".into(), at);
+    v
+}
+
+#[derive(Default, Clone)]
+struct Cnt(BTreeMap<String, u64>);
+impl Cnt {
+    fn add(&mut self, k: &str, n: u64) {
+        *self.0.entry(k.to_string()).or_insert(0) += n;
+    }
+    fn max(&mut self, k: &str, v: u64) {
+        let e = self.0.entry(k.to_string()).or_insert(0);
+        if v > *e {
+            *e = v;
+        }
+    }
+    fn merge(&mut self, o: &Cnt) {
+        for (k, v) in &o.0 {
+            if k.starts_with("max_") {
+                self.max(k, *v);
+            } else {
+                self.add(k, *v);
+            }
+        }
+    }
+}
+
+// ------------------------------------------------------------------------------------------
+// catalogue of datasets (deterministic; LCG with fixed constants)
+// ------------------------------------------------------------------------------------------
+
+struct Lcg(u64);
+impl Lcg {
+    fn unif(&mut self) -> f64 {
+        self.0 = self.0.wrapping_mul(6364136223846793005).wrapping_add(1442695040888963407);
+        ((self.0 >> 11) as f64) / ((1u64 << 53) as f64)
+    }
+    /// unit-variance bell-shaped deviate: centred sum of four uniforms (variance 4/12) x sqrt(3)
+    fn bell(&mut self) -> f64 {
+        (self.unif() + self.unif() + self.unif() + self.unif() - 2.0) * 3f64.sqrt()
+    }
+}
+
+const FAMILIES: [&str; 5] = ["separated", "overlapping", "anisotropic", "far", "degenerate"];
+const AXIS_SCALE: [f64; 6] = [3.0, 0.3, 1.0, 0.5, 2.0, 0.2];
+const OFFSET: [f64; 6] = [2.5, -1.25, 0.75, 4.0, -3.5, 1.5];
+
+fn build_dataset(fam_idx: usize, d: usize, blobs: usize, rows_variant: usize) -> Vec<Vec<f64>> {
+    let family = FAMILIES[fam_idx];
+    let sep = match family {
+        "separated" => 10.0,
+        "overlapping" => 1.5,
+        "anisotropic" => 6.0,
+        "far" => 1000.0,
+        _ => 4.0, // degenerate
+    };
+    let rows: Vec<usize> = if rows_variant == 0 { vec![10; blobs] } else { [25usize, 15, 20][..blobs].to_vec() };
+    let mut lcg = Lcg(0x9E37_79B9_7F4A_7C15 ^ (((fam_idx as u64) << 32) | ((d as u64) << 16) | ((blobs as u64) << 8) | rows_variant as u64));
+    // warm up
+    for _ in 0..8 {
+        lcg.unif();
+    }
+    let mut data = Vec::new();
+    for b in 0..blobs {
+        let mut centre = vec![0.0; d];
+        match b {
+            0 => {}
+            1 => centre[0] = sep,
+            _ => {
+                if d >= 2 {
+                    centre[0] = -0.6 * sep;
+                    centre[1] = 0.9 * sep;
+                } else {
+                    centre[0] = -1.3 * sep;
+                }
+            }
+        }
+        let sig = [1.0, 0.7, 1.4][b];
+        let ang = 0.5236 * (b as f64 + 1.0);
+        for _ in 0..rows[b] {
+            let mut z: Vec<f64> = (0..d).map(|_| lcg.bell()).collect();
+            if family == "anisotropic" {
+                for j in 0..d {
+                    z[j] *= AXIS_SCALE[(j + b) % 6];
+                }
+                if d >= 2 {
+                    let (c, s) = (ang.cos(), ang.sin());
+                    let (a0, a1) = (z[0], z[1]);
+                    z[0] = c * a0 - s * a1;
+                    z[1] = s * a0 + c * a1;
+                }
+            } else {
+                for v in z.iter_mut() {
+                    *v *= sig;
+                }
+            }
+            if family == "degenerate" {
+                // rank-deficient clouds: in >= 2 dimensions the last coordinate is constant (only reg_covar
+                // makes the covariances positive definite); in one dimension the values lie on a grid of
+                // step 0.5, so that many rows are exact duplicates
+                if d >= 2 {
+                    z[d - 1] = 0.0;
+                    centre[d - 1] = 0.0;
+                } else {
+                    z[0] = (z[0] * 2.0).round() / 2.0;
+                }
+            }
+            // six decimals: short literals that survive the JSON round trip of the replay artefact exactly
+            let row: Vec<f64> = (0..d).map(|j| ((centre[j] + OFFSET[j] + z[j]) * 1e6).round() / 1e6).collect();
+            data.push(row);
+        }
+    }
+    data
+}
+
+struct Member {
+    id: String,
+    family: &'static str,
+    data: Vec<Vec<f64>>,
+}
+
+fn catalogue(thorough: bool) -> Vec<Member> {
+    let mut out = Vec::new();
+    let dims: Vec<usize> = if thorough { vec![1, 2, 3, 4, 5, 6] } else { vec![1, 2, 3] };
+    for (fi, fam) in FAMILIES.iter().enumerate() {
+        for &d in &dims {
+            for blobs in [2usize, 3] {
+                for rv in [0usize, 1] {
+                    out.push(Member { id: format!("{}-d{}-b{}-r{}", fam, d, blobs, rv), family: fam, data: build_dataset(fi, d, blobs, rv) });
+                }
+            }
+        }
+    }
+    out
+}
+
+// ------------------------------------------------------------------------------------------
+// reference model of one component (plain f64)
+// ------------------------------------------------------------------------------------------
+
+struct RefComp {
+    lw: f64,
+    mu: Vec<f64>,
+    l: Mat,
+    logdet: f64,
+    cond: f64,
+}
+
+/// y = L^-1 v (forward substitution)
+fn fwd(l: &Mat, v: &[f64]) -> Vec<f64> {
+    let n = v.len();
+    let mut y = vec![0.0; n];
+    for i in 0..n {
+        let mut s = v[i];
+        for k in 0..i {
+            s -= l[i][k] * y[k];
+        }
+        y[i] = s / l[i][i];
+    }
+    y
+}
+
+impl RefComp {
+    /// (weighted log density, squared Mahalanobis distance)
+    fn wlp(&self, x: &[f64]) -> (f64, f64) {
+        let d = x.len();
+        let diff: Vec<f64> = x.iter().zip(&self.mu).map(|(a, b)| a - b).collect();
+        let y = fwd(&self.l, &diff);
+        let maha: f64 = y.iter().map(|v| v * v).sum();
+        let lp = -0.5 * (d as f64 * (2.0 * std::f64::consts::PI).ln() + self.logdet + maha);
+        (self.lw + lp, maha)
+    }
+}
+
+fn dirs(d: usize) -> Vec<(String, Vec<f64>)> {
+    let mut out = Vec::new();
+    for j in 0..d {
+        for s in [1.0, -1.0] {
+            let mut u = vec![0.0; d];
+            u[j] = s;
+            out.push((format!("axis{}{}", if s > 0.0 { "+" } else { "-" }, j), u));
+        }
+    }
+    if d >= 2 {
+        let r = 1.0 / (d as f64).sqrt();
+        for mask in 0..(1usize << d) {
+            let u: Vec<f64> = (0..d).map(|j| if mask >> j & 1 == 1 { -r } else { r }).collect();
+            out.push((format!("diag{:0w$b}", mask, w = d), u));
+        }
+    }
+    out
+}
+
+fn error_kind(e: &GmmError) -> &'static str {
+    match e {
+        GmmError::InvalidValue(_) => "InvalidValue",
+        GmmError::LinalgError(_) => "LinalgError",
+        GmmError::EmptyCluster(_) => "EmptyCluster",
+        GmmError::LowerBoundError(_) => "LowerBoundError",
+        GmmError::NotConverged(_) => "NotConverged",
+        GmmError::KMeansError(_) => "KMeansError",
+        GmmError::LinfaError(_) => "LinfaError",
+        GmmError::MinMaxError(_) => "MinMaxError",
+    }
+}
+
+fn max_abs(m: &Mat) -> f64 {
+    m.iter().flatten().fold(0.0f64, |s, v| s.max(v.abs()))
+}
+
+// ------------------------------------------------------------------------------------------
+// one fit + all its oracles
+// ------------------------------------------------------------------------------------------
+
+/// Returns true when the fit produced a model (so the parameter and query oracles ran).
+fn run_fit(case: &Case, cfg: &Cfg, cnt: &mut Cnt, viols: &mut Vec<Violation>) -> bool {
+    let n = case.data.len();
+    let d = case.data[0].len();
+    let k = case.n_clusters;
+    let rec = Array2::from_shape_fn((n, d), |(i, j)| case.data[i][j]);
+    let ds = DatasetBase::from(rec);
+    let init = match case.init.as_str() {
+        "kmeans" => GmmInitMethod::KMeans,
+        "random" => GmmInitMethod::Random,
+        other => panic!("unknown init {}", other),
+    };
+    let cj = |at: Value| single_case_json(case, cfg, at);
+    cnt.add("fits", 1);
+    let cfg_txt = format!(
+        "dataset {} ({}x{}), {} components, {} init, seed {}, reg_covar {:e}, tolerance {:e}, n_runs {}, max_iter {}",
+        case.dataset, n, d, k, case.init, cfg.seed, cfg.reg, cfg.tol, cfg.n_runs, cfg.max_iter
+    );
+
+    let fit = guarded(|| {
+        GaussianMixtureModel::<f64>::params(k)
+            .init_method(init)
+            .reg_covariance(cfg.reg)
+            .tolerance(cfg.tol)
+            .n_runs(cfg.n_runs)
+            .max_n_iterations(cfg.max_iter)
+            .with_rng(Xoshiro256Plus::seed_from_u64(cfg.seed))
+            .fit(&ds)
+    });
+    let model = match fit {
+        Err(p) => {
+            cnt.add("fit_panics", 1);
+            viols.push(Violation::new("gmm.fit.panic", format!("fit panicked ({}): {}", cfg_txt, p), cj(json!({"phase": "fit"}))));
+            return false;
+        }
+        Ok(Err(e)) => {
+            let kind = error_kind(&e);
+            cnt.add(&format!("fit_err.{}", kind), 1);
+            if kind == "InvalidValue" {
+                viols.push(Violation::new(
+                    "gmm.fit.valid_hyperparameters_rejected",
+                    format!("valid hyper-parameters were rejected ({}): {}", cfg_txt, e),
+                    cj(json!({"phase": "fit"})),
+                ));
+            }
+            return false;
+        }
+        Ok(Ok(m)) => m,
+    };
+    cnt.add("fits_ok", 1);
+
+    // ---------------- published parameters as plain vectors ----------------
+    let w: Vec<f64> = model.weights().to_vec();
+    let mu: Mat = model.means().rows().into_iter().map(|r| r.to_vec()).collect();
+    let to_mats = |a: &ndarray::Array3<f64>| -> Vec<Mat> { a.outer_iter().map(|m| m.rows().into_iter().map(|r| r.to_vec()).collect()).collect() };
+    let cov: Vec<Mat> = to_mats(model.covariances());
+    let prec: Vec<Mat> = to_mats(model.precisions());
+    let at_model = |what: &str| cj(json!({"phase": "model", "check": what}));
+
+    let shape_ok = w.len() == k
+        && mu.len() == k
+        && mu.iter().all(|r| r.len() == d)
+        && cov.len() == k
+        && prec.len() == k
+        && cov.iter().chain(prec.iter()).all(|m| m.len() == d && m.iter().all(|r| r.len() == d));
+    if !shape_ok {
+        viols.push(Violation::new(
+            "gmm.fit.wrong_shape",
+            format!("{}: weights {:?}, means {:?}, covariances {:?}, precisions {:?} for k={} d={}", cfg_txt, model.weights().dim(), model.means().dim(), model.covariances().dim(), model.precisions().dim(), k, d),
+            at_model("shape"),
+        ));
+        return true;
+    }
+    let all_finite = w.iter().all(|v| v.is_finite())
+        && mu.iter().flatten().all(|v| v.is_finite())
+        && cov.iter().flatten().flatten().all(|v| v.is_finite())
+        && prec.iter().flatten().flatten().all(|v| v.is_finite());
+    if !all_finite {
+        viols.push(Violation::new(
+            "gmm.fit.non_finite_parameters",
+            format!("{}: Ok model with non-finite parameters: weights {:?} means {:?}", cfg_txt, w, mu),
+            at_model("finite"),
+        ));
+        return true;
+    }
+
+    // weights
+    let wsum: f64 = w.iter().sum();
+    if w.iter().any(|&v| !(v > 0.0)) {
+        viols.push(Violation::new("gmm.fit.weight_not_positive", format!("{}: weights {:?}", cfg_txt, w), at_model("weights_positive")));
+    }
+    if (wsum - 1.0).abs() > TOL_SUM {
+        viols.push(Violation::new("gmm.fit.weights_do_not_sum_to_one", format!("{}: weights {:?} sum to {} (expected 1 +- {:e})", cfg_txt, w, wsum, TOL_SUM), at_model("weights_sum")));
+    }
+
+    // bounding box
+    let xmax = case.data.iter().flatten().fold(0.0f64, |s, v| s.max(v.abs()));
+    for j in 0..d {
+        let lo = case.data.iter().map(|r| r[j]).fold(f64::INFINITY, f64::min);
+        let hi = case.data.iter().map(|r| r[j]).fold(f64::NEG_INFINITY, f64::max);
+        let slack = TOL_BOX_REL * (1.0 + xmax);
+        if let Some(c) = (0..k).find(|&c| mu[c][j] < lo - slack || mu[c][j] > hi + slack) {
+            viols.push(Violation::new(
+                "gmm.fit.mean_outside_bounding_box",
+                format!("{}: mean of component {} has coordinate {} = {} outside the data range [{}, {}]", cfg_txt, c, j, mu[c][j], lo, hi),
+                at_model("bounding_box"),
+            ));
+            break;
+        }
+    }
+
+    // covariances: symmetric, diagonal >= reg, positive definite (own Cholesky)
+    let mut comps: Vec<RefComp> = Vec::new();
+    let mut pd = true;
+    for c in 0..k {
+        let s = &cov[c];
+        let sm = max_abs(s);
+        let mut asym = 0.0f64;
+        for i in 0..d {
+            for j in 0..i {
+                asym = asym.max((s[i][j] - s[j][i]).abs());
+            }
+        }
+        if asym > TOL_SYM_REL * sm {
+            viols.push(Violation::new("gmm.fit.covariance_not_symmetric", format!("{}: covariance {} = {:?} asymmetric by {:e}", cfg_txt, c, s, asym), at_model("symmetric")));
+        }
+        if let Some(i) = (0..d).find(|&i| s[i][i] < cfg.reg * (1.0 - 1e-12)) {
+            viols.push(Violation::new(
+                "gmm.fit.covariance_diagonal_below_reg_covar",
+                format!("{}: covariance {} has diagonal entry [{}] = {:e} < reg_covar {:e}", cfg_txt, c, i, s[i][i], cfg.reg),
+                at_model("diag_reg"),
+            ));
+        }
+        // symmetrised copy for the reference factorisation (the asymmetry is checked above)
+        let sym: Mat = (0..d).map(|i| (0..d).map(|j| 0.5 * (s[i][j] + s[j][i])).collect()).collect();
+        match refmath::cholesky(&sym) {
+            Some(l) => {
+                let (vals, _) = refmath::jacobi_eig(&sym);
+                let lmin = vals.last().cloned().unwrap_or(0.0);
+                let cond = if lmin > 0.0 { vals[0] / lmin } else { f64::INFINITY };
+                let logdet = 2.0 * (0..d).map(|i| l[i][i].ln()).sum::<f64>();
+                comps.push(RefComp { lw: w[c].ln(), mu: mu[c].clone(), l, logdet, cond });
+            }
+            None => {
+                pd = false;
+                // numerically semi-definite matrices (possible only with reg_covar = 0) are a rounding
+                // question between two Cholesky implementations, not a verdict
+                let (vals, _) = refmath::jacobi_eig(&sym);
+                if cfg.reg == 0.0 && vals.last().map_or(false, |&l| l > -1e-12 * vals[0].abs()) {
+                    cnt.add("positive_definite_indeterminate_semi_definite_with_reg_0", 1);
+                    continue;
+                }
+                viols.push(Violation::new("gmm.fit.covariance_not_positive_definite", format!("{}: covariance {} = {:?} has no Cholesky factor", cfg_txt, c, s), at_model("positive_definite")));
+            }
+        }
+    }
+    if !pd {
+        return true;
+    }
+    let max_cond = comps.iter().fold(1.0f64, |s, c| s.max(c.cond));
+    cnt.max("max_log10_condition_number_x100", (max_cond.log10() * 100.0).max(0.0) as u64);
+
+    // precisions x covariances = I
+    for c in 0..k {
+        let tol_ps = ERR_COND * comps[c].cond + 1e-12;
+        if !(tol_ps <= 1e-6) {
+            cnt.add("precision_checks_indeterminate_cond_too_large", 1);
+            continue;
+        }
+        cnt.add("precision_checks", 1);
+        let ps = refmath::matmul(&prec[c], &cov[c]);
+        let mut dev = 0.0f64;
+        for i in 0..d {
+            for j in 0..d {
+                dev = dev.max((ps[i][j] - if i == j { 1.0 } else { 0.0 }).abs());
+            }
+        }
+        if dev > tol_ps {
+            viols.push(Violation::new(
+                "gmm.fit.precisions_not_inverse_of_covariances",
+                format!("{}: component {}: max |P S - I| = {:e} (tolerance {:e}, condition number {:e}); P = {:?}, S = {:?}", cfg_txt, c, dev, tol_ps, comps[c].cond, prec[c], cov[c]),
+                at_model("precision_times_covariance"),
+            ));
+            break;
+        }
+    }
+
+    // moment identities of an M-step with responsibilities whose rows sum to one
+    let m = refmath::col_means(&case.data);
+    let total = refmath::covariance(&case.data, 0.0);
+    let mix_mean: Vec<f64> = (0..d).map(|j| (0..k).map(|c| w[c] * mu[c][j]).sum::<f64>() / wsum).collect();
+    if (wsum - 1.0).abs() <= TOL_SUM {
+        if let Some(j) = (0..d).find(|&j| (mix_mean[j] - m[j]).abs() > TOL_MOMENT_REL * (1.0 + xmax)) {
+            viols.push(Violation::new(
+                "gmm.fit.mixture_mean_differs_from_data_mean",
+                format!("{}: sum_k w_k mu_k [{}] = {} but the data mean is {}", cfg_txt, j, mix_mean[j], m[j]),
+                at_model("moment_mean"),
+            ));
+        }
+        let mut mix = refmath::zeros(d, d);
+        for c in 0..k {
+            for i in 0..d {
+                for j in 0..d {
+                    mix[i][j] += w[c] * (cov[c][i][j] + (mu[c][i] - m[i]) * (mu[c][j] - m[j]));
+                }
+            }
+        }
+        for i in 0..d {
+            mix[i][i] -= cfg.reg;
+        }
+        let tol_m = TOL_MOMENT_REL * (max_abs(&total) + cfg.reg);
+        let mut worst = (0.0f64, 0usize, 0usize);
+        for i in 0..d {
+            for j in 0..d {
+                let dv = (mix[i][j] - total[i][j]).abs();
+                if dv > worst.0 {
+                    worst = (dv, i, j);
+                }
+            }
+        }
+        cnt.add("moment_identity_checks", 1);
+        if worst.0 > tol_m {
+            let (i, j) = (worst.1, worst.2);
+            viols.push(Violation::new(
+                "gmm.fit.mixture_second_moment_differs_from_data_covariance_plus_reg",
+                format!(
+                    "{}: [sum_k w_k (S_k + (mu_k-m)(mu_k-m)^T) - reg I][{}][{}] = {} but the population covariance of the data is {} (|diff| {:e} > {:e})",
+                    cfg_txt, i, j, mix[i][j], total[i][j], worst.0, tol_m
+                ),
+                at_model("moment_covariance"),
+            ));
+        }
+    }
+
+    // ---------------- query menu ----------------
+    struct Q {
+        kind: String,
+        x: Vec<f64>,
+    }
+    let mut qs: Vec<Q> = Vec::new();
+    for (i, r) in case.data.iter().enumerate() {
+        qs.push(Q { kind: format!("train{}", i), x: r.clone() });
+    }
+    for c in 0..k {
+        qs.push(Q { kind: format!("mean{}", c), x: mu[c].clone() });
+    }
+    let dd = dirs(d);
+    for c in 0..k {
+        for &s in &SCALES {
+            for (name, u) in &dd {
+                let y = fwd(&comps[c].l, u);
+                let un: f64 = y.iter().map(|v| v * v).sum::<f64>().sqrt();
+                let t = s / un;
+                let x: Vec<f64> = (0..d).map(|j| mu[c][j] + t * u[j]).collect();
+                qs.push(Q { kind: format!("comp{}:{}sd:{}", c, s, name), x });
+            }
+        }
+    }
+    let nq = qs.len();
+    let qarr = Array2::from_shape_fn((nq, d), |(i, j)| qs[i].x[j]);
+    cnt.add("queries", nq as u64);
+    let at_q = |i: usize, q: &Q| cj(json!({"phase": "query", "query_index": i, "query_kind": q.kind, "query": q.x}));
+
+    let proba = match guarded(|| model.predict_proba(&qarr)) {
+        Ok(p) => p,
+        Err(p) => {
+            viols.push(Violation::new("gmm.predict_proba.panic", format!("{}: predict_proba on {} finite queries panicked: {}", cfg_txt, nq, p), cj(json!({"phase": "query_batch"}))));
+            return true;
+        }
+    };
+    if proba.dim() != (nq, k) {
+        viols.push(Violation::new("gmm.predict_proba.wrong_shape", format!("{}: predict_proba returned {:?} for {} queries and {} components", cfg_txt, proba.dim(), nq, k), cj(json!({"phase": "query_batch"}))));
+        return true;
+    }
+    let pred: Option<Vec<usize>> = match guarded(|| model.predict(&qarr)) {
+        Ok(p) => Some(p.to_vec()),
+        Err(p) => {
+            let nan_rows = (0..nq).filter(|&i| proba.row(i).iter().any(|v| v.is_nan())).count();
+            viols.push(Violation::new(
+                "gmm.predict.panic",
+                format!("{}: predict on {} finite queries panicked: {} ({} predict_proba rows contain NaN)", cfg_txt, nq, p, nan_rows),
+                cj(json!({"phase": "query_batch"})),
+            ));
+            None
+        }
+    };
+    if let Some(p) = &pred {
+        if p.len() != nq {
+            viols.push(Violation::new("gmm.predict.wrong_length", format!("{}: predict returned {} labels for {} queries", cfg_txt, p.len(), nq), cj(json!({"phase": "query_batch"}))));
+            return true;
+        }
+    }
+
+    // first violation per signature and fit is reported; the number of affected queries goes into the text
+    let mut first: BTreeMap<&'static str, (usize, String)> = BTreeMap::new();
+    let mut affected: BTreeMap<&'static str, u64> = BTreeMap::new();
+    let mut note = |sig: &'static str, i: usize, what: String| {
+        *affected.entry(sig).or_insert(0) += 1;
+        first.entry(sig).or_insert((i, what));
+    };
+    for (i, q) in qs.iter().enumerate() {
+        let row: Vec<f64> = proba.row(i).to_vec();
+        let refs: Vec<(f64, f64)> = comps.iter().map(|c| c.wlp(&q.x)).collect();
+        let wl: Vec<f64> = refs.iter().map(|r| r.0).collect();
+        let errs: Vec<f64> = refs.iter().zip(&comps).map(|((l, maha), c)| ERR_COND * c.cond * (maha + d as f64) + 1e-13 * l.abs()).collect();
+        let err_max = errs.iter().cloned().fold(0.0f64, f64::max);
+        let wl_max = wl.iter().cloned().fold(f64::NEG_INFINITY, f64::max);
+        // regime: can any exp() of the reference weighted log densities be computed without loss?
+        let low_regime = wl_max < LN_MIN_NORMAL + 1.0 + err_max;
+        if low_regime {
+            if wl_max < -745.2 {
+                cnt.add("queries_every_density_underflows_to_0", 1);
+            } else {
+                cnt.add("queries_largest_density_subnormal", 1);
+            }
+        } else {
+            cnt.add("queries_normal_range", 1);
+        }
+        let all_pos_inf = row.iter().all(|&v| v == f64::INFINITY);
+        let mut row_valid = false;
+        if row.iter().any(|v| !v.is_finite()) {
+            if low_regime && all_pos_inf {
+                note(SIG_INF, i, format!("query {} = {:?}: predict_proba row {:?}; reference weighted log densities {:?} (all below ln(min subnormal) = -745.13, so every exp() is 0, the sum 0, its ln -inf); expected posterior {:?}", q.kind, q.x, row, wl, posterior(&wl)));
+            } else {
+                note("gmm.predict_proba.non_finite_row", i, format!("query {} = {:?}: predict_proba row {:?}; reference weighted log densities {:?}", q.kind, q.x, row, wl));
+            }
+        } else if row.iter().any(|&v| v < 0.0) {
+            note("gmm.predict_proba.negative_probability", i, format!("query {} = {:?}: predict_proba row {:?}", q.kind, q.x, row));
+        } else {
+            let s: f64 = row.iter().sum();
+            if (s - 1.0).abs() > TOL_SUM {
+                if low_regime {
+                    note(SIG_SUBNORMAL, i, format!("query {} = {:?}: predict_proba row {:?} sums to {} (|sum-1| = {:e}); reference weighted log densities {:?}: the largest exp() is subnormal, so the un-shifted sum has lost its mantissa", q.kind, q.x, row, s, (s - 1.0).abs(), wl));
+                } else {
+                    note("gmm.predict_proba.row_does_not_sum_to_one", i, format!("query {} = {:?}: predict_proba row {:?} sums to {} (expected 1 +- {:e})", q.kind, q.x, row, s, TOL_SUM));
+                }
+            } else {
+                row_valid = true;
+            }
+        }
+        // posterior of the published parameters
+        if row_valid && !low_regime {
+            if err_max > ERR_SKIP {
+                cnt.add("posterior_checks_indeterminate_error_bound_too_large", 1);
+            } else {
+                cnt.add("posterior_checks", 1);
+                let p = posterior(&wl);
+                let tol = k as f64 * err_max + 1e-9;
+                if let Some(c) = (0..k).find(|&c| (p[c] - row[c]).abs() > tol) {
+                    note(
+                        "gmm.predict_proba.differs_from_posterior_of_published_parameters",
+                        i,
+                        format!("query {} = {:?}: predict_proba row {:?} but the posterior of the published weights / means / covariances is {:?} (component {} differs by {:e} > {:e})", q.kind, q.x, row, p, c, (p[c] - row[c]).abs(), tol),
+                    );
+                }
+            }
+        }
+        // predict
+        if let Some(pv) = &pred {
+            let c = pv[i];
+            if c >= k {
+                note("gmm.predict.index_out_of_range", i, format!("query {} = {:?}: predict returned {} with {} components", q.kind, q.x, c, k));
+                continue;
+            }
+            if !row.iter().any(|v| v.is_nan()) {
+                let rmax = row.iter().cloned().fold(f64::NEG_INFINITY, f64::max);
+                if !(row[c] >= rmax - 1e-12) {
+                    note("gmm.predict.not_argmax_of_predict_proba_row", i, format!("query {} = {:?}: predict returned {} but predict_proba row is {:?}", q.kind, q.x, c, row));
+                }
+            }
+            let gap = wl_max - wl[c];
+            let margin = 2.0 * err_max + 1e-9 * (1.0 + wl_max.abs());
+            if gap > margin {
+                cnt.add("argmax_checks", 1);
+                let best = (0..k).find(|&j| wl[j] == wl_max).unwrap();
+                if all_pos_inf && low_regime && c == 0 {
+                    note(SIG_PRED_FIRST, i, format!("query {} = {:?}: predict returned 0 (first of the all-inf predict_proba row {:?}) but component {} has the maximal posterior: reference weighted log densities {:?}", q.kind, q.x, row, best, wl));
+                } else {
+                    note("gmm.predict.not_a_component_of_maximal_posterior", i, format!("query {} = {:?}: predict returned {} but component {} has the maximal posterior: reference weighted log densities {:?} (gap {:e} > margin {:e}); predict_proba row {:?}", q.kind, q.x, c, best, wl, gap, margin, row));
+                }
+            } else if gap > 0.0 {
+                cnt.add("argmax_checks_indeterminate_within_margin", 1);
+            } else {
+                cnt.add("argmax_checks", 1);
+            }
+        }
+    }
+    for (sig, (i, what)) in first {
+        let nq_aff = affected[sig];
+        cnt.add(&format!("queries_affected.{}", sig), nq_aff);
+        viols.push(Violation::new(sig, format!("{}: {} [{} of the {} queries of this fit]", cfg_txt, what, nq_aff, nq), at_q(i, &qs[i])));
+    }
+    true
+}
+
+fn posterior(wl: &[f64]) -> Vec<f64> {
+    let lse = refmath::logsumexp(wl);
+    wl.iter().map(|v| (v - lse).exp()).collect()
+}
+
+fn run_case(case: &Case, viols: &mut Vec<Violation>) -> (Cnt, u64, u64) {
+    let mut cnt = Cnt::default();
+    let mut evals = 0u64;
+    let mut nontrivial = 0u64;
+    for cfg in case.configs() {
+        let ok = run_fit(case, &cfg, &mut cnt, viols);
+        evals += 1;
+        if ok && case.n_clusters >= 2 {
+            nontrivial += 1;
+        }
+    }
+    (cnt, evals, nontrivial)
+}
+
+fn replay_value(v: &Value) -> Vec<Violation> {
+    let c: Case = match serde_json::from_value(v.clone()) {
+        Ok(c) => c,
+        Err(e) => {
+            println!("MACHINERY-ERROR replay case does not parse: {}", e);
+            std::process::exit(2);
+        }
+    };
+    let mut out = Vec::new();
+    run_case(&c, &mut out);
+    // the artefact names the check (model phase) or nothing else: all violations of this one fit
+    // are shown; `finish` only requires the recorded signature to be among them
+    out
+}
+
+fn main() {
+    let ctx = Ctx::new("C10", Level::Exploration);
+    ctx.maybe_replay(&replay_value);
+    ctx.set_rule(
+        "case group = (catalogue dataset, component count 1..3, initialiser KMeans|Random, rng seed 0..3 (quick) / 0..15 (thorough)); inside a group the full grid reg_covar {1e-6,1e-3,0.1} (+ 0 for the degenerate family; thorough: everywhere) x tolerance {1e-3,1e-5} x n_runs {1,3} x max_n_iterations {100, 5} is walked; \
+         the catalogue = families {separated, overlapping, anisotropic (axis scales 0.2..3, rotated), far (blobs 1000 apart), degenerate (one constant coordinate / duplicated rows)} x features 1..3 (quick) / 1..6 (thorough) x {2,3} blobs x {10 rows each, 25/15/20 rows}, every member is run; \
+         per successful fit the query menu = every training row, every component mean, and mean_k + t u for every component k, every u in {+-e_j} and {(+-1,..,+-1)/sqrt(d)}, t such that the Mahalanobis distance to component k is exactly s, s in {10,38,39,100,1e3,1e6}. \
+         evaluation = one fit with all its parameter and query oracles; non-trivial = the fit returned a model with >= 2 components (an Err is an accepted outcome and counted per error kind); distinct by construction of the grid.",
+    );
+    ctx.assume("datasets are built from an LCG with fixed constants (bell-shaped deviates = centred sum of four uniforms), rounded to 6 decimals; VERIF_SEED does not enter; the dataset catalogue is a finite hand-made family, not a sample");
+    ctx.assume("weights: each > 0, |sum - 1| <= 1e-9; means inside the data bounding box +- 1e-9 (1 + max|x|); covariances symmetric to 1e-10 relative, positive definite = refmath::cholesky of the symmetrised matrix succeeds, diagonal >= reg_covar (1 - 1e-12)");
+    ctx.assume("precisions: max |P S - I| <= 1e-13 * cond(S) + 1e-12 with cond from the Jacobi eigenvalues; components with a bound above 1e-6 are counted indeterminate");
+    ctx.assume("'diagonal includes the regularisation' is made exact through the M-step moment identity sum_k w_k (S_k + (mu_k - m)(mu_k - m)^T) - reg I = population covariance of the data and sum_k w_k mu_k = data mean, relative 1e-9; holds for ANY responsibilities whose rows sum to one, hence for every accepted EM iterate");
+    ctx.assume("predict_proba rows: all finite, all >= 0, |sum - 1| <= 1e-9; predict: index < k and probability >= row maximum - 1e-12 (any member of the tie set)");
+    ctx.assume("reference posterior: own Cholesky of the published covariances, weighted log densities, max-shifted log-sum-exp; discrepancy bound per component 1e-13 * cond * (mahalanobis^2 + d) + 1e-13 |log density|; probabilities compared with k * bound + 1e-9 when the bound <= 1e-4 (else indeterminate), only where the largest weighted log density is above ln(f64::MIN_POSITIVE) + 1 + bound; predict must lie within 2 * bound + 1e-9 (1 + |max|) of the maximal reference weighted log density (else violation; smaller non-zero gaps indeterminate)");
+    ctx.assume("an Err from fit (NotConverged, EmptyCluster, LinalgError, KMeansError, MinMaxError, LowerBoundError) is an accepted outcome; InvalidValue for the valid grid, a panic, or an Ok model with non-finite parameters is a violation; f64 only");
+
+    let members = catalogue(ctx.thorough());
+    let seeds: Vec<u64> = (0..ctx.pick(4u64, 16u64)).collect();
+    let max_iters: Vec<u64> = vec![100, 5];
+    let mut cases: Vec<Case> = Vec::new();
+    for m in &members {
+        for k in 1..=3usize {
+            for init in ["kmeans", "random"] {
+                for &seed in &seeds {
+                cases.push(Case {
+                    dataset: m.id.clone(),
+                    family: m.family.to_string(),
+                    data: m.data.clone(),
+                    n_clusters: k,
+                    init: init.to_string(),
+                    seeds: vec![seed],
+                    // reg_covar = 0 ("non-negative" per the rustdoc) only where it is interesting: rank-deficient
+                    // data (quick) / everywhere (thorough)
+                    reg_covars: if ctx.thorough() || m.family == "degenerate" { vec![0.0, 1e-6, 1e-3, 0.1] } else { vec![1e-6, 1e-3, 0.1] },
+                    tolerances: vec![1e-3, 1e-5],
+                    n_runs: vec![1, 3],
+                    max_iters: max_iters.clone(),
+                });
+                }
+            }
+        }
+    }
+    let expected_fits: u64 = cases.iter().map(|c| c.configs().len() as u64).sum();
+    ctx.extra("catalogue_members", json!(members.len()));
+    ctx.extra("catalogue", json!(members.iter().map(|m| format!("{} ({}x{})", m.id, m.data.len(), m.data[0].len())).collect::<Vec<_>>()));
+    ctx.extra("case_groups", json!(cases.len()));
+    ctx.extra("fits_enumerated", json!(expected_fits));
+
+    let totals = Mutex::new(Cnt::default());
+    let families_ok: Mutex<BTreeSet<String>> = Mutex::new(BTreeSet::new());
+    par_sweep(&ctx, "gmm sweep", &cases, |c| {
+        let mut v = Vec::new();
+        let (cnt, evals, nontrivial) = run_case(c, &mut v);
+        ctx.evals(evals, nontrivial);
+        ctx.violations(v);
+        if cnt.0.get("fits_ok").cloned().unwrap_or(0) > 0 {
+            families_ok.lock().unwrap().insert(format!("{}/k{}/{}", c.family, c.n_clusters, c.init));
+        }
+        ctx.sample(|| json!({"dataset": c.dataset, "rows": c.data.len(), "features": c.data[0].len(), "first_row": c.data[0], "n_clusters": c.n_clusters, "init": c.init, "fits_in_group": c.configs().len(), "fits_ok": cnt.0.get("fits_ok"), "queries": cnt.0.get("queries")}));
+        totals.lock().unwrap().merge(&cnt);
+    });
+    let t = totals.lock().unwrap().clone();
+    for (k, v) in &t.0 {
+        if k.contains("indeterminate") {
+            for _ in 0..*v {
+                ctx.indeterminate();
+            }
+        }
+    }
+    for (k, v) in &t.0 {
+        if k == "max_log10_condition_number_x100" {
+            ctx.extra("max_log10_condition_number", json!(*v as f64 / 100.0));
+        } else {
+            ctx.extra(k, json!(v));
+        }
+    }
+    ctx.extra("family_x_k_x_init_combinations_with_a_successful_fit", json!(families_ok.lock().unwrap().len()));
+    let fits_run = t.0.get("fits").cloned().unwrap_or(0);
+    if fits_run != expected_fits {
+        ctx.capped(&format!("{} of {} enumerated fits were run", fits_run, expected_fits));
+    }
+    ctx.finish(&replay_value);
+}
